@@ -1,5 +1,9 @@
 (* C03 — Decoding is exact or rejected: no silent loss, coercion or ambiguity.
-   Only statements, closed by [exact lemma], with Print Assumptions beneath. *)
+   Only statements, closed by [exact lemma], with Print Assumptions beneath.
+   [Theorem]s carry content and are counted as obligations; statements marked [Remark] are one-step
+   unfoldings of the model (a single check of decodeValue / decodeOneofInner / OptionByName read off its
+   definition); they are kept for reference, subsumed by the document-level theorems
+   (C03_fault_at_any_position_rejected, C03_full) and NOT counted as obligations. *)
 From Coq Require Import String List NArith ZArith Bool.
 From J5V.lib Require Import Outcome Json.
 From J5V.model Require Import CodecTypes CodecDecScalar CodecDec CodecDecQuery CodecDecTree.
@@ -11,13 +15,14 @@ From J5V.lib Require Civil Decimal.
 From J5V.proofs Require CodecDecDecimal CodecDecTimeFast.
 From Coq Require Import Permutation.
 From J5V.model Require CodecDecCommute.
-From J5V.proofs Require CodecDecMsgSorted CodecDecReorder CodecDecLenient CodecDecOneofReorder.
+From J5V.proofs Require CodecDecMsgSorted CodecDecReorder CodecDecLenient CodecDecOneofReorder CodecDecDenote CodecDecFull CodecDecSpace CodecDecFloatProofs.
+From J5V.model Require CodecDecFloat.
 Import ListNotations.
 Local Open Scope N_scope.
 
 (* ------------------------------------------------------------------ integers (all of Z, four widths) *)
 (* exact: a stored integer is the value its digit string denotes, quoted or bare, and lies in range *)
-Theorem C03_int_exact : forall k lo hi v z,
+Remark C03_int_exact : forall k lo hi v z,
   int_range k = Some (lo, hi) -> (exists s, v = GStr s \/ v = GNum s) ->
   int_from_go k v = Ok (Some (VInt z)) ->
   (exists s, (v = GStr s \/ v = GNum s) /\ denotes_int s z) /\ (lo <= z <= hi)%Z.
@@ -79,16 +84,16 @@ Proof. exact int_unparsable_rejected. Qed.
 Print Assumptions C03_int_unparsable_rejected.
 
 (* ------------------------------------------------------------------ bool, string, key, wrong types *)
-Theorem C03_bool_exact : forall orc v b, scalar_from_go orc KBool v = Ok (Some (VBool b)) <-> v = GBool b.
+Remark C03_bool_exact : forall orc v b, scalar_from_go orc KBool v = Ok (Some (VBool b)) <-> v = GBool b.
 Proof. exact bool_exact. Qed.
 Print Assumptions C03_bool_exact.
 
-Theorem C03_string_exact : forall orc k v s, (k = KString \/ k = KKey) ->
+Remark C03_string_exact : forall orc k v s, (k = KString \/ k = KKey) ->
   scalar_from_go orc k v = Ok (Some (VStr s)) <-> v = GStr s.
 Proof. exact string_exact. Qed.
 Print Assumptions C03_string_exact.
 
-Theorem C03_wrong_type_rejected : forall orc,
+Remark C03_wrong_type_rejected : forall orc,
   (forall v, (forall b, v <> GBool b) -> v <> GNil -> is_err (scalar_from_go orc KBool v) = true) /\
   (forall k v, k = KString \/ k = KKey -> (forall s, v <> GStr s) -> v <> GNil -> is_err (scalar_from_go orc k v) = true) /\
   (forall k v, k = KBytes \/ k = KTimestamp \/ k = KDate -> (forall s, v <> GStr s) -> is_err (scalar_from_go orc k v) = true) /\
@@ -123,20 +128,20 @@ Theorem C03_enum_with_or_without_prefix : forall prefix opts name z,
 Proof. exact enum_prefix_leniency. Qed.
 Print Assumptions C03_enum_with_or_without_prefix.
 
-Theorem C03_enum_exact : forall prefix opts name z,
+Remark C03_enum_exact : forall prefix opts name z,
   option_by_name prefix opts name = Some z ->
   option_by_short opts name = Some z \/ option_by_short opts (trim_prefix prefix name) = Some z.
 Proof. exact enum_exact. Qed.
 Print Assumptions C03_enum_exact.
 
-Theorem C03_enum_unknown_rejected : forall prefix opts name,
+Remark C03_enum_unknown_rejected : forall prefix opts name,
   option_by_short opts name = None -> option_by_short opts (trim_prefix prefix name) = None ->
   option_by_name prefix opts name = None.
 Proof. exact enum_unknown_rejected. Qed.
 Print Assumptions C03_enum_unknown_rejected.
 
 (* ------------------------------------------------------------------ dates *)
-Theorem C03_date_exact : forall s y m d,
+Remark C03_date_exact : forall s y m d,
   date_from_string s = Some (y, m, d) -> (0 <= y <= 9999 /\ 1 <= m <= 12 /\ 1 <= d <= days_in y m)%Z.
 Proof. exact date_exact. Qed.
 Print Assumptions C03_date_exact.
@@ -150,7 +155,7 @@ Theorem C03_date_exact_strong : forall s y m d,
 Proof. exact date_exact_strong. Qed.
 Print Assumptions C03_date_exact_strong.
 
-Theorem C03_date_invalid_rejected : forall s a b c y m d,
+Remark C03_date_invalid_rejected : forall s a b c y m d,
   split_on 45 s [] = [a; b; c] -> atoi a = Some y -> atoi b = Some m -> atoi c = Some d ->
   (m < 1 \/ 12 < m \/ d < 1 \/ days_in y m < d \/ y < 0 \/ 9999 < y)%Z ->
   date_from_string s = None.
@@ -158,52 +163,52 @@ Proof. exact date_invalid_rejected. Qed.
 Print Assumptions C03_date_invalid_rejected.
 
 (* ------------------------------------------------------------------ members, at the position where they stand *)
-Theorem C03_null_member_skipped : forall d dp p ts m seen,
+Remark C03_null_member_skipped : forall d dp p ts m seen,
   (d + 1 <= max_nesting_depth)%N -> member_with d dp p (TNull :: ts) m seen = Ok (m, ts, seen).
 Proof. exact null_member_skipped. Qed.
 Print Assumptions C03_null_member_skipped.
 
-Theorem C03_duplicate_member_rejected : forall d dp p t ts m seen,
+Remark C03_duplicate_member_rejected : forall d dp p t ts m seen,
   t <> TNull -> mem_bytes (p_json p) seen = true -> is_err (member_with d dp p (t :: ts) m seen) = true.
 Proof. exact duplicate_member_rejected. Qed.
 Print Assumptions C03_duplicate_member_rejected.
 
-Theorem C03_unknown_key_rejected_object : forall orc e me f d props key ts m seen,
+Remark C03_unknown_key_rejected_object : forall orc e me f d props key ts m seen,
   find_prop props key = None ->
   is_err (object_body orc e me (S f) d props (TStr key :: ts) m seen) = true.
 Proof. exact unknown_key_rejected_object. Qed.
 Print Assumptions C03_unknown_key_rejected_object.
 
-Theorem C03_unknown_key_rejected_oneof : forall orc e me f d props key ts m seen found c,
+Remark C03_unknown_key_rejected_oneof : forall orc e me f d props key ts m seen found c,
   bytes_eqb key type_key = false -> find_prop props key = None ->
   is_err (oneof_body orc e me (S f) d props (TStr key :: ts) m seen found c) = true.
 Proof. exact unknown_key_rejected_oneof. Qed.
 Print Assumptions C03_unknown_key_rejected_oneof.
 
-Theorem C03_oneof_two_keys_rejected : forall props m k1 k2 rest constrain,
+Remark C03_oneof_two_keys_rejected : forall props m k1 k2 rest constrain,
   is_err (oneof_post props m (k1 :: k2 :: rest) constrain) = true.
 Proof. exact oneof_two_keys_rejected. Qed.
 Print Assumptions C03_oneof_two_keys_rejected.
 
-Theorem C03_oneof_type_contradiction_rejected : forall props m k c,
+Remark C03_oneof_type_contradiction_rejected : forall props m k c,
   bytes_eqb k c = false -> is_err (oneof_post props m [k] (Some c)) = true.
 Proof. exact oneof_type_contradiction_rejected. Qed.
 Print Assumptions C03_oneof_type_contradiction_rejected.
 
-Theorem C03_member_error_fails_object : forall orc e me f d props key p ts m seen c,
+Remark C03_member_error_fails_object : forall orc e me f d props key p ts m seen c,
   find_prop props key = Some p ->
   member_with d (decode_present orc e me f (d + 1) p) p ts m seen = Err c ->
   object_body orc e me (S f) d props (TStr key :: ts) m seen = Err c.
 Proof. exact member_error_fails_object. Qed.
 Print Assumptions C03_member_error_fails_object.
 
-Theorem C03_null_array_element_rejected : forall orc e me f d k ts acc,
+Remark C03_null_array_element_rejected : forall orc e me f d k ts acc,
   is_err (array_items orc e me (S f) d (FScalar k) (TNull :: ts) acc) = true.
 Proof. exact null_array_element_rejected. Qed.
 Print Assumptions C03_null_array_element_rejected.
 
 (* two members of one (unexposed) proto oneof: the second is rejected where it stands *)
-Theorem C03_oneof_sibling_rejected : forall d dp p t ts m seen,
+Remark C03_oneof_sibling_rejected : forall d dp p t ts m seen,
   t <> TNull -> oneof_conflict p m = true -> is_err (member_with d dp p (t :: ts) m seen) = true.
 Proof. exact oneof_sibling_rejected. Qed.
 Print Assumptions C03_oneof_sibling_rejected.
@@ -646,23 +651,11 @@ Example C03_example_enum_date :
   date_from_string [50;48;50;52;45;49;51;45;52;53] = None.
 Proof. vm_compute. repeat split; reflexivity. Qed.
 
-(* ------------------------------------------------------------------ the full statement, and where it stands *)
-(* The property's three sentences over the model, at document level (bytes in, message or error out):
-   exactness   every non-null member of an accepted document, at every depth, is decoded by its own
-               property's decoder and the field it wrote survives to the final message
-               (C03_document_members_stored + C03_nested_members_stored / C03_object_member_own for the
-               levels below; scalars: C03_document_scalars_stored with the per-kind value theorems);
-   rejection   a fault of any listed class at any position makes the document an error
-               (C03_fault_at_any_position_rejected);
-   leniency    documents that differ only by documented spellings of leaves, member order, whitespace
-               and explicit nulls decode to the same message.
-   Exactness and rejection are theorems above (exactness under the schema condition props_separate).
-   Leniency: documents of the same shape whose leaves are respelled in any combination decode to the
-   same result (C03_respelled_documents_same_result), the leaf facts being the scalar theorems
-   (integers, floats, decimals quoted or bare; the four base64 forms; enum prefix); explicit null
-   members are skipped (C03_null_member_skipped, member level).  NOT proved: timestamps at different
-   offsets denote the same instant (time.Parse is uninterpreted), member reordering, insignificant
-   whitespace, and null-padding lifted to whole documents: direct oracle and correspondence only. *)
+(* ------------------------------------------------------------------ the parts at document level (descent) *)
+(* The two Definitions below are the earlier, weaker document-level forms over the DESCENT of decodeRoot
+   (CodecDec.decode_bytes: decodeObject / decodeOneof on the root, before the end-of-input check); they
+   are kept because proofs/CodecEnc* (C01) and the reordering theorems are stated on the descent.  The
+   full statement over the whole call JSONToProto is C03_full_statement at the end of this file. *)
 Definition C03_exactness_statement : Prop :=
   forall orc e root props bs ms rest me m',
     lookup e root = Some (SObject props) -> props_separate e props ->
@@ -696,3 +689,188 @@ Proof.
   destruct H1 as [<- | [<- | []]]; destruct H2 as [<- | [<- | []]]; cbn in Hne; try discriminate;
     cbn; (split; [discriminate | intros []]).
 Qed.
+
+(* ================================================================== THE FULL STATEMENT *)
+(* What a document denotes, without the decoder (proofs/CodecDecDenote.v):
+     denotes orc e ty j x        the JSON value j denotes the proto value x at a field of type ty
+                                 (scalar: the conversion of the one token; enum: the option named, with or
+                                 without prefix; object / oneof: VMsg of what the member list denotes; array /
+                                 map: element by element, in order; any: type name + compact text of the value);
+     denotes_msg orc e props ms m  (1) every non-null member (key, v) of ms has a property p and, at the proto
+                                 path of p, m holds exactly stored_as p x for the x that v denotes (stored_as:
+                                 an implicit-presence zero / empty list / empty map is an absent field), and
+                                 (2) every populated field of m is owned by a non-null member (nothing else).
+   No prior message state, "seen" list, fuel or depth occurs in either relation. *)
+Theorem C03_object_body_is_denoted : forall orc e,
+  CodecDecFull.env_sep e ->
+  forall f d props ms m', props_separate e props ->
+    tr_object orc e f d props ms [] [] = Ok m' -> CodecDecDenote.denotes_msg orc e props ms m'.
+Proof. exact CodecDecDenote.object_body_denoted. Qed.
+Print Assumptions C03_object_body_is_denoted.
+
+(* a member's own decode, from any message in which its field is absent, stores what its value denotes:
+   the prior state that C03_object_member_own / C03_array_member_own quantify existentially (sub0, base)
+   is empty *)
+Theorem C03_member_stores_denotation : forall orc e, CodecDecFull.env_sep e ->
+  forall n f d p v m m1, (jsize v <= n)%nat -> p_path p <> [] -> v <> JNull ->
+    tr_present orc e f d p v m = Ok m1 -> get_path (p_path p) m = None ->
+    exists x, CodecDecDenote.denotes orc e (p_ty p) v x /\ get_path (p_path p) m1 = CodecDecDenote.stored_as p x.
+Proof. exact CodecDecDenote.P_all. Qed.
+Print Assumptions C03_member_stores_denotation.
+
+Theorem C03_separation_of_environment_decidable : forall e, env_separate e = true -> CodecDecFull.env_sep e.
+Proof. exact CodecDecFull.env_separate_sound. Qed.
+Print Assumptions C03_separation_of_environment_decidable.
+
+(* the whole call: descent, then nothing but white space may follow (fix 9f742f6) *)
+Theorem C03_document_is_descent_then_end : forall orc e root bs j rest me,
+  lex bs = (tokens_of j ++ rest, me) ->
+  decode_document orc e root bs =
+  obind (tr_decode orc e (S (jsize j)) root j) (fun m =>
+    obind (end_of_input rest (lex_at_eof bs)) (fun _ => Ok m)).
+Proof. exact decode_document_tree. Qed.
+Print Assumptions C03_document_is_descent_then_end.
+
+Theorem C03_trailing_data_rejected : forall orc e root bs j t rest me,
+  lex bs = (tokens_of j ++ t :: rest, me) -> is_ok (decode_document orc e root bs) = false.
+Proof. exact decode_document_tree_trailing. Qed.
+Print Assumptions C03_trailing_data_rejected.
+
+Theorem C03_accepted_document_is_accepted_descent : forall orc e root bs m,
+  decode_document orc e root bs = Ok m <->
+  decode_bytes orc e root bs = Ok m /\ doc_end_ok orc e root bs = true.
+Proof. exact decode_document_ok. Qed.
+Print Assumptions C03_accepted_document_is_accepted_descent.
+
+(* The property's statement over the model of JSONToProto, for every environment passing the two
+   computable schema checks that each run evaluates on the real schemas (CEnv cases):
+   (1) success => the text is ONE document, every non-null member is stored with exactly the value it
+       denotes and nothing else is stored (doc_denotes = denotes_msg for an object root, denotes at
+       FOneof for a oneof root);
+   (2) every documented alternate spelling (doc_variant: respelled leaves, permuted members, added
+       explicit nulls, in any combination at any depth) of an accepted document is accepted with the
+       same message;
+   (3) a document with a fault of a listed class at any position (doc_fault), or with anything after the
+       top-level value, is an error. *)
+Definition C03_full_statement : Prop :=
+  forall orc e root, env_separate e = true -> CodecDecCommute.env_commute e = true ->
+  (forall bs ms rest me m',
+     lex bs = (tokens_of (JObj ms) ++ rest, me) -> decode_document orc e root bs = Ok m' ->
+     rest = [] /\ lex_at_eof bs = true /\ CodecDecFull.doc_denotes orc e root ms m') /\
+  (forall bs bs' ms ms' me me' m',
+     lex bs = (tokens_of (JObj ms), me) -> lex_at_eof bs = true ->
+     lex bs' = (tokens_of (JObj ms'), me') -> lex_at_eof bs' = true ->
+     CodecDecFull.doc_variant orc e root ms ms' ->
+     decode_document orc e root bs = Ok m' -> decode_document orc e root bs' = Ok m') /\
+  (forall bs ms rest me,
+     lex bs = (tokens_of (JObj ms) ++ rest, me) ->
+     CodecDecFull.doc_fault orc e root ms \/ rest <> [] \/ lex_at_eof bs = false ->
+     is_err (decode_document orc e root bs) = true).
+Theorem C03_full : C03_full_statement.
+Proof. exact CodecDecFull.C03_full. Qed.
+Print Assumptions C03_full.
+
+(* non-vacuity: ok_doc on pos_env satisfies both schema checks, is accepted as a whole document, and
+   the same text followed by a second document, a stray bracket or a letter is an error *)
+Example C03_example_full :
+  env_separate pos_env = true /\ CodecDecCommute.env_commute pos_env = true /\
+  lex ok_doc = (tokens_of ok_tree ++ [], false) /\ lex_at_eof ok_doc = true /\
+  decode_document no_oracles pos_env [78] ok_doc =
+    Ok [(2, VList [VStr [97]; VStr [98]]); (5, VMsg [(2, VList [VStr [120]])])] /\
+  is_err (decode_document no_oracles pos_env [78] (ok_doc ++ [123; 125])) = true /\
+  is_err (decode_document no_oracles pos_env [78] (ok_doc ++ [93])) = true /\
+  is_err (decode_document no_oracles pos_env [78] (ok_doc ++ [32; 120])) = true /\
+  decode_document no_oracles pos_env [78] ([32; 10] ++ ok_doc ++ [10; 32; 9; 13]) =
+    decode_document no_oracles pos_env [78] ok_doc.
+Proof. vm_compute. repeat split; reflexivity. Qed.
+
+(* ------------------------------------------------------------------ insignificant white space *)
+(* Decoder.Token() skips white space before the token it reads in every tokenizer state, and again behind
+   a ':' or ',' it passes: white space at those places never reaches the decoder *)
+Theorem C03_whitespace_before_any_token : forall ws st stack s, CodecDecSpace.all_space ws ->
+  token_call st stack (ws ++ s) = token_call st stack s.
+Proof. exact CodecDecSpace.token_call_ws. Qed.
+Print Assumptions C03_whitespace_before_any_token.
+
+Theorem C03_whitespace_after_separator : forall ws st stack c s, CodecDecSpace.all_space ws -> (c = 58 \/ c = 44)%N ->
+  token_call st stack (c :: ws ++ s) = token_call st stack (c :: s).
+Proof. exact CodecDecSpace.token_call_ws_after_sep. Qed.
+Print Assumptions C03_whitespace_after_separator.
+
+(* white space in front of the document: same tokens, same end-of-input observation, same result of JSONToProto *)
+Theorem C03_leading_whitespace_same_result : forall orc e root ws bs, CodecDecSpace.all_space ws ->
+  decode_document orc e root (ws ++ bs) = decode_document orc e root bs.
+Proof. exact CodecDecSpace.decode_document_leading_ws. Qed.
+Print Assumptions C03_leading_whitespace_same_result.
+
+(* ------------------------------------------------------------------ float values, under the float oracle law *)
+(* model/CodecDecFloat.v: [rounds fmt m e bits] = bits is the IEEE-754 round-to-nearest, ties-to-even value
+   of m * 10^e (two midpoint comparisons in exact integer arithmetic; a stored infinity never rounds);
+   [float_oracle_law orc]: whatever ParseFloat accepts of a decimal text (exponent within +-2000) is that
+   value, for binary64 and binary32.  Every run checks the law's instance on every float text of every
+   decode case against the real strconv.ParseFloat (float_table_ok in dec_check). *)
+Theorem C03_float64_value_exact : forall orc v s m e bits, CodecDecFloat.float_oracle_law orc ->
+  CodecDecFloatProofs.float_text v = Some s -> Decimal.dec_parse s = Some (m, e) ->
+  (Z.abs e <= CodecDecFloat.float_exp_bound)%Z ->
+  scalar_from_go orc KFloat64 v = Ok (Some (VFloat bits)) -> CodecDecFloat.rounds CodecDecFloat.binary64 m e bits = true.
+Proof. exact CodecDecFloatProofs.float64_value_exact. Qed.
+Print Assumptions C03_float64_value_exact.
+
+Theorem C03_float32_value_exact : forall orc v s m e bits, CodecDecFloat.float_oracle_law orc ->
+  CodecDecFloatProofs.float_text v = Some s -> Decimal.dec_parse s = Some (m, e) ->
+  (Z.abs e <= CodecDecFloat.float_exp_bound)%Z ->
+  scalar_from_go orc KFloat32 v = Ok (Some (VFloat bits)) -> CodecDecFloat.rounds CodecDecFloat.binary32 m e bits = true.
+Proof. exact CodecDecFloatProofs.float32_value_exact. Qed.
+Print Assumptions C03_float32_value_exact.
+
+(* the reading is sharp: 0.1 rounds to 0x3FB999999999999A and to neither neighbour; 2^53 + 1 (a tie) to the
+   even 2^53; the float32 double-rounding text of fix 684dc42 to 0x3f800001, not 0x3f800000 *)
+Example C03_example_float_rounding :
+  CodecDecFloat.rounds CodecDecFloat.binary64 1 (-1) 4591870180066957722 = true /\
+  CodecDecFloat.rounds CodecDecFloat.binary64 1 (-1) 4591870180066957721 = false /\
+  CodecDecFloat.rounds CodecDecFloat.binary64 1 (-1) 4591870180066957723 = false /\
+  CodecDecFloat.rounds CodecDecFloat.binary64 9007199254740993 0 4845873199050653696 = true /\
+  CodecDecFloat.rounds CodecDecFloat.binary64 9007199254740993 0 4845873199050653697 = false /\
+  CodecDecFloat.rounds CodecDecFloat.binary32 100000005960464477539062500000000000000000000000001 (-50) 1065353217 = true /\
+  CodecDecFloat.rounds CodecDecFloat.binary32 100000005960464477539062500000000000000000000000001 (-50) 1065353216 = false /\
+  CodecDecFloat.rounds CodecDecFloat.binary64 17976931348623159 292 9218868437227405311 = false.
+Proof. vm_compute. repeat split; reflexivity. Qed.
+
+(* ------------------------------------------------------------------ the oracles instantiated (closed corollaries) *)
+(* model_oracles: time.Parse = the Go-tied model go_time_parse, decimal.NewFromString = lib/Decimal.v,
+   ParseFloat = a table of correctly rounded values.  It satisfies time_oracle_is_model,
+   decimal_oracle_is_model and float_oracle_law, so the premises of the theorems above are satisfiable
+   and the theorems hold of it without any oracle premise. *)
+Theorem C03_oracle_premises_satisfied :
+  T.time_oracle_is_model CodecDecFloatProofs.model_oracles /\
+  D.decimal_oracle_is_model CodecDecFloatProofs.model_oracles /\
+  CodecDecFloat.float_oracle_law CodecDecFloatProofs.model_oracles.
+Proof. exact (conj CodecDecFloatProofs.model_oracles_time (conj CodecDecFloatProofs.model_oracles_decimal CodecDecFloatProofs.model_oracles_float)). Qed.
+Print Assumptions C03_oracle_premises_satisfied.
+
+Theorem C03_timestamp_any_offset_closed : forall f g,
+  T.shape f -> T.shape g -> T.in_range f = true -> T.in_range g = true ->
+  T.instant f = T.instant g -> T.nanos f = T.nanos g ->
+  scalar_from_go CodecDecFloatProofs.model_oracles KTimestamp (GStr (T.text f)) =
+  scalar_from_go CodecDecFloatProofs.model_oracles KTimestamp (GStr (T.text g)).
+Proof. exact CodecDecFloatProofs.timestamp_any_offset_closed. Qed.
+Print Assumptions C03_timestamp_any_offset_closed.
+
+Theorem C03_decimal_exact_closed : forall quoted s c,
+  scalar_from_go CodecDecFloatProofs.model_oracles KDecimal (D.dec_goval quoted s) = Ok (Some (mk_decimal c)) ->
+  exists m e b, Decimal.dec_parse s = Some (m, e) /\ c = Decimal.dec_print m e /\
+                Decimal.dec_parse c = Some b /\ Decimal.dec_eq (m, e) b.
+Proof. exact CodecDecFloatProofs.decimal_exact_closed. Qed.
+Print Assumptions C03_decimal_exact_closed.
+
+(* LIMITS of C03_full (also in pylib/propcfg/C03.py "partial"):
+   - the leaf reading inside [denotes] is the conversion of the one token (scalar_from_go); what that
+     conversion computes is characterised independently per kind by the scalar theorems above (integers,
+     dates, timestamps, decimals, bool / string / key, base64 canonical forms); float64 / float32 values
+     rest on the float oracle (C03_float_* below / above);
+   - members whose property is an exposed oneof (empty proto path) are covered by clause (2) of
+     denotes_msg ("nothing else", via owns) but not by the per-member clause (1);
+   - the hypothesis [lex bs = (tokens_of (JObj ms) ++ rest, me)]: that every accepted text has such a
+     reading is not proved (malformed texts end the token list early and the descent fails on them);
+   - (2) is one direction (accepted original => accepted variant); the converse holds for member
+     reordering and null padding of the root (C03_reordered_document_same_message, iff). *)
